@@ -413,7 +413,8 @@ func interfaceValueAsSqlString(ctx *sql.Context, ti typeinfo.TypeInfo, value int
 		}
 		return quoteAndEscapeString(s), nil
 	case querypb.Type_GEOMETRY:
-		return singleQuote + str + singleQuote, nil
+		// |str| holds the raw SRID + WKB bytes, which may contain quote and backslash bytes
+		return hexEncodeBytes([]byte(str)), nil
 	default:
 		return str, nil
 	}
